@@ -23,13 +23,13 @@ Theorem decode_all_rejects_trailing t bs v b r :
 Proof. unfold decode_all. intros ->. reflexivity. Qed.
 
 Theorem strict_prefix_fails t v bs pre suf known :
-  nobits t = true -> wf_ty t = true -> wf t v = true -> enc_spec t v = EOk bs ->
+  wf_ty t = true -> wf t v = true -> enc_spec t v = EOk bs ->
   bs = pre ++ suf -> suf <> [] ->
   forall v' r, runo (dec t) known pre <> OOk v' r.
 Proof.
-  intros Hb Ht Hw He -> Hs v' r Hd.
+  intros Ht Hw He -> Hs v' r Hd.
   pose proof (runo_extend _ (dec t) known suf pre v' r Hd) as Hx.
-  pose proof (roundtrip t v (pre ++ suf) known [] Hb Ht Hw He) as Hr. rewrite app_nil_r in Hr.
+  pose proof (roundtrip t v (pre ++ suf) known [] Ht Hw He) as Hr. rewrite app_nil_r in Hr.
   rewrite Hr in Hx. injection Hx as _ Hx. destruct r; destruct suf; try discriminate. now apply Hs.
 Qed.
 
@@ -51,14 +51,14 @@ Definition item_val (x : ty * val * list byte) := snd (fst x).
 Definition item_bytes (x : ty * val * list byte) := snd x.
 
 Theorem concat_decodes_in_order known : forall (items : list (ty * val * list byte)) rest,
-  Forall (fun x => nobits (item_ty x) = true /\ wf_ty (item_ty x) = true /\
+  Forall (fun x => wf_ty (item_ty x) = true /\
                    wf (item_ty x) (item_val x) = true /\ enc_spec (item_ty x) (item_val x) = EOk (item_bytes x)) items ->
   dec_all_of (map item_ty items) known (concat (map item_bytes items) ++ rest)
   = Some (map (fun x => canon (item_ty x) (item_val x)) items, rest).
 Proof.
   induction items as [|x items IH]; intros rest H; [reflexivity|].
-  inversion H as [|? ? Hx Hrest]; subst. destruct Hx as (Hb & Ht & Hw & He).
-  cbn [map concat dec_all_of]. rewrite <- app_assoc, (roundtrip _ _ _ known _ Hb Ht Hw He).
+  inversion H as [|? ? Hx Hrest]; subst. destruct Hx as (Ht & Hw & He).
+  cbn [map concat dec_all_of]. rewrite <- app_assoc, (roundtrip _ _ _ known _ Ht Hw He).
   now rewrite IH.
 Qed.
 
